@@ -35,6 +35,8 @@ enum Req {
     ValidateHolder { c: usize },
     Revoke { c: usize },
     SignCounterparty { c: usize },
+    /// the same request through the raw-transaction entry point (SignRemoteCommitmentTx)
+    SignCounterpartyRaw { c: usize },
     ValidateRevocation { c: usize },
     GetPoint { c: usize },
     SignHolder { c: usize },
@@ -56,7 +58,7 @@ impl Req {
         match self {
             Req::ValidateHolder { .. } => "validate_holder",
             Req::Revoke { .. } => "revoke",
-            Req::SignCounterparty { .. } => "sign_counterparty",
+            Req::SignCounterparty { .. } | Req::SignCounterpartyRaw { .. } => "sign_counterparty",
             Req::ValidateRevocation { .. } => "validate_revocation",
             Req::GetPoint { .. } => "get_point",
             Req::SignHolder { .. } => "sign_holder",
@@ -251,6 +253,15 @@ impl Base {
                 let point = p.m.cp.point(secp, p.next_cp);
                 st(report::catch(|| node.with_channel(&p.m.id0, |ch| ch.sign_counterparty_commitment_tx_phase2(&point, p.next_cp, cc.feerate_per_kw, cc.to_holder_sat, cc.to_counterparty_sat, cc.received.clone(), cc.offered.clone()))), |(s, hs)| format!("{}:{}", s, hs.len()))
             }
+            Req::SignCounterpartyRaw { c } => {
+                let p = &self.preps[*c];
+                let cc = p.cp_content.clone();
+                let point = p.m.cp.point(secp, p.next_cp);
+                match report::catch(|| p.m.counterparty_commitment_phase1(secp, p.next_cp, &point, &cc)) {
+                    Ok((tx, wit)) => st(report::catch(|| node.with_channel(&p.m.id0, |ch| ch.sign_counterparty_commitment_tx(&tx, &wit, &point, p.next_cp, cc.feerate_per_kw, cc.received.clone(), cc.offered.clone()))), |s| format!("{}", s)),
+                    Err(_) => "err:harness could not build the commitment".into(),
+                }
+            }
             Req::ValidateRevocation { c } => {
                 let p = &self.preps[*c];
                 let sec = p.m.cp.secret(p.next_cp_revoke);
@@ -350,7 +361,8 @@ fn gen_req(rng: &mut Rng, base: &Base) -> Req {
     match rng.below(20) {
         0 | 1 => Req::ValidateHolder { c },
         2 | 3 => Req::Revoke { c },
-        4 | 5 => Req::SignCounterparty { c },
+        4 => Req::SignCounterparty { c },
+        5 => Req::SignCounterpartyRaw { c },
         6 => Req::ValidateRevocation { c },
         7 => Req::GetPoint { c },
         8 => Req::SignHolder { c },
@@ -388,6 +400,26 @@ fn interleavings(lens: &[usize]) -> Vec<Vec<usize>> {
     out
 }
 
+fn sort_pair_arrays(v: &mut serde_json::Value) {
+    match v {
+        serde_json::Value::Array(a) => {
+            for x in a.iter_mut() {
+                sort_pair_arrays(x);
+            }
+            let all_pairs = !a.is_empty() && a.iter().all(|x| x.as_array().map(|p| p.len() == 2).unwrap_or(false));
+            if all_pairs {
+                a.sort_by_key(|x| x[0].to_string());
+            }
+        }
+        serde_json::Value::Object(o) => {
+            for (_, x) in o.iter_mut() {
+                sort_pair_arrays(x);
+            }
+        }
+        _ => {}
+    }
+}
+
 fn canon(world: &World) -> String {
     let s = snapshot::take(world);
     let mut out = String::new();
@@ -400,7 +432,17 @@ fn canon(world: &World) -> String {
         out.push_str(&k);
         out.push('=');
         if k.starts_with("store.") {
-            out.push_str(v.splitn(2, ':').nth(1).unwrap_or(&v));
+            // Stored values are JSON; maps are written as arrays of [key, value] pairs in the map's own iteration
+            // order, which depends on insertion order.  Two histories that end with the same set of entries are
+            // the same outcome: such arrays are compared sorted.
+            let body = v.splitn(2, ':').nth(1).unwrap_or(&v);
+            match serde_json::from_str::<serde_json::Value>(body) {
+                Ok(mut j) => {
+                    sort_pair_arrays(&mut j);
+                    out.push_str(&j.to_string());
+                }
+                Err(_) => out.push_str(body),
+            }
         } else {
             out.push_str(&v);
         }
